@@ -188,3 +188,7 @@ func Run(name string, f func()) {
 // paths and merge the results (callee paths add up instead of multiplying). The name is
 // the SSA name, e.g. "(github.com/berquerant/crd/note.Degree).Semitone". Natively a no-op.
 func Summarise(name string) {}
+
+// PreemptionBound limits the number of forced context switches per explored schedule
+// (engine only; switches at blocking operations are always explored).
+func PreemptionBound(n int) {}
